@@ -32,10 +32,12 @@ func verifIsAtext(c byte) bool {
 // and without parameters.
 //
 //	valid   = "<" Dot-string "@" LDH-domain ">"            -> mailbox returned
+//	          "<" Quoted-string "@" LDH-domain ">" (printable, non-empty)
+//	                                      -> the local part's value "@" domain
 //	invalid = no '@' at all / '<' without closing '>' / empty local part /
 //	          empty domain / an unquoted special or space in the local part /
 //	          unterminated quoted string
-//	everything else (no '<', source routes, quoted strings, address literals,
+//	everything else (no '<', source routes, other quoted strings, address literals,
 //	odd domain octets, text after '>') is unspecified and not judged.
 func refPathClass(s string, isMail bool) (int, string) {
 	if isMail && s == "<>" {
@@ -111,11 +113,23 @@ func refPathClass(s string, isMail bool) (int, string) {
 		return vUnspec, ""
 	}
 	if len(body) > 0 && body[0] == '"' {
-		// quoted string: only "never terminated" is definitely invalid
+		// quoted string: "never terminated" is definitely invalid; a narrow
+		// well-formed one (printable qtextSMTP and quoted-pairs, non-empty,
+		// followed by '@' LDH-domain '>') is valid, and the mailbox is its
+		// VALUE - the quotes and the backslashes of quoted-pairs are not
+		// part of the local part (RFC 5321 section 4.1.2)
 		i := 1
 		closed := false
+		narrow := true
+		var val []byte
 		for i < len(body) {
 			if body[i] == '\\' {
+				if i+1 < len(body) {
+					if body[i+1] < 32 || body[i+1] > 126 {
+						narrow = false
+					}
+					val = append(val, body[i+1])
+				}
 				i += 2
 				continue
 			}
@@ -123,10 +137,35 @@ func refPathClass(s string, isMail bool) (int, string) {
 				closed = true
 				break
 			}
+			if body[i] < 32 || body[i] > 126 {
+				narrow = false
+			}
+			val = append(val, body[i])
 			i++
 		}
 		if !closed {
 			return vInvalid, ""
+		}
+		if !narrow || len(val) == 0 || i+1 >= len(body) || body[i+1] != '@' {
+			return vUnspec, ""
+		}
+		rest := body[i+2:]
+		if len(rest) < 2 || rest[len(rest)-1] != '>' {
+			return vUnspec, ""
+		}
+		dom := rest[:len(rest)-1]
+		okDom := dom[0] != '.' && dom[len(dom)-1] != '.' && dom[0] != '-' && dom[len(dom)-1] != '-'
+		for j := 0; j < len(dom); j++ {
+			if dom[j] == '.' {
+				if j+1 < len(dom) && dom[j+1] == '.' {
+					okDom = false
+				}
+			} else if !verifIsAlnum(dom[j]) && dom[j] != '-' {
+				okDom = false
+			}
+		}
+		if okDom {
+			return vValid, string(val) + "@" + dom
 		}
 		return vUnspec, ""
 	}
@@ -271,7 +310,7 @@ func verif_C11_path() {
 // verif_C11_template: grammar-derived valid lines with one position replaced
 // by an arbitrary octet (all 256 values in one path set).
 func verif_C11_template() {
-	templates := []string{"<a@b>", "<a.b@c.d>", "<a+b@c-d.e>", "<ab@[1.2]>", "<\"a b\"@c>", "<@x:a@b>", "<>"}
+	templates := []string{"<a@b>", "<a.b@c.d>", "<a+b@c-d.e>", "<ab@[1.2]>", "<\"a b\"@c>", "<@x:a@b>", "<>", "<\"a.b\"@c>", "<\"a\\bc\"@d>", "<@x:\"ab\"@c>"}
 	t := templates[verifChoice(len(templates))]
 	isMail := nondetBool()
 	if !isMail {
